@@ -66,6 +66,8 @@ static void *gen_lookup (const char *name) {
 int64_t c06_helper (int64_t a, int64_t b) { return a * 3 + b; }
 /* memory alignment / validity observations made inside MIR callee bodies go to outs */
 
+static unsigned char first_out[192], first_outs[2048], first_pimg[256];
+static int have_first = 0;
 static char *line = NULL;
 static size_t line_cap = 0;
 static const char *cur_id = "?";
@@ -237,13 +239,30 @@ static void run_case (char *id, char *mode, char *engine, char *target, char *mi
     } else {
       if (strncmp (target, "tramp", 5) == 0 && target[5] != 0) reps = atoi (target + 5);
       for (int r = 0; r < reps; r++) { /* lazy: the first call generates, the second runs directly */
+        if (r > 0) { /* keep what the earlier call produced */
+          memcpy (first_out, c06_out, sizeof (c06_out));
+          memcpy (first_outs, c05_outs, 2048);
+          memcpy (first_pimg, c05_img, 256);
+          have_first = 1;
+          memset (c05_outs, 0xa5, OUTS_SIZE);
+          memset (c06_out, 0, sizeof (c06_out));
+        }
         memset (c06_in, 0, sizeof (c06_in));
         memset (c05_img, 0, sizeof (c05_img));
         unhex (iohex, c06_in, sizeof (c06_in));
         c06_tramp (addr);
       }
     }
-    printf ("%s ok vals=%llx out=", id, (unsigned long long) (uintptr_t) c05_vals);
+    printf ("%s ok vals=%llx", id, (unsigned long long) (uintptr_t) c05_vals);
+    if (have_first) {
+      printf (" out0=");
+      puthex (stdout, first_out, sizeof (c06_out));
+      printf (" outs0=");
+      puthex (stdout, first_outs, 2048);
+      printf (" pimg0=");
+      puthex (stdout, first_pimg, 256);
+    }
+    printf (" out=");
     puthex (stdout, c06_out, sizeof (c06_out));
     printf (" outs=");
     puthex (stdout, c05_outs, 2048);
